@@ -1,6 +1,7 @@
 /- Line-protocol driver: one JSON request per input line, one JSON reply per output line. -/
 import StubGen.Driver.Json
 import StubGen.Driver.ApiJson
+import StubGen.Driver.DocJson
 import StubGen.Model.Naming
 import StubGen.Model.Types
 import StubGen.Model.Discovery
@@ -25,6 +26,7 @@ def handle (j : Json) : Json :=
     | .ok t => Json.mkObj [("ok", .bool true), ("todict", pyToJson t.toDict), ("hash", .str t.hashKey),
                            ("refl", .bool (t.pyEq t))]
   | "gen" => runGen j
+  | "doc" => runDoc j
   | "discover" =>
     let parts := fun (x : Json) => match x with
       | .arr a => a.toList.filterMap fun y => match y with | .str s => some s | _ => none
